@@ -67,7 +67,7 @@ def make_master(ctx, rng, scenario, d):
         p = os.path.join(ws, "data")
         gen.write_tree(p, files)
         env.stage_and_transfer(src, p)
-        if rng.random() < 0.6:
+        if True:  # always: a second directory that shares files with the first
             files2 = {("again", *k): v for k, v in list(files.items())[:2]}
             files2[("own",)] = gen.small_content(rng)
             p2 = os.path.join(ws, "data2")
